@@ -350,6 +350,19 @@ func (e *Engine) computeSites(fn *ssa.Function) map[ssa.Instruction]string {
 	return out
 }
 
+// isSSATemp: the name go/ssa gives an unnamed register (t0, t1, ...).
+func isSSATemp(n string) bool {
+	if len(n) < 2 || n[0] != 't' {
+		return false
+	}
+	for _, ch := range n[1:] {
+		if ch < '0' || ch > '9' {
+			return false
+		}
+	}
+	return true
+}
+
 func callName(c *ssa.CallCommon) string {
 	if c.IsInvoke() {
 		return c.Method.Name()
@@ -362,8 +375,8 @@ func callName(c *ssa.CallCommon) string {
 	case *ssa.MakeClosure:
 		return funcKey(v.Fn.(*ssa.Function))
 	}
-	if c.Value.Name() != "" && !strings.HasPrefix(c.Value.Name(), "t") {
-		return c.Value.Name()
+	if n := c.Value.Name(); n != "" && !isSSATemp(n) {
+		return n
 	}
 	// a function value loaded from a struct field is named after the field
 	switch v := c.Value.(type) {
